@@ -3,6 +3,7 @@ package yqlib
 import (
 	"io"
 	"strconv"
+	"strings"
 
 	yaml "gopkg.in/yaml.v3"
 )
@@ -306,4 +307,47 @@ func VerifC06WideInts() {
 	verifObserve("json", string(b))
 	verifAssert(verifEqStr(string(b), "{S(k):I("+verifItoa(val)+")}"), "C06/json-value-differs-from-yaml-value wide-int")
 	verifCover("C06/wide/end")
+}
+
+// VerifC06JSONEncoder: the real jsonEncoder.Encode (its JSON library call redirected to the value-level stub) with the
+// unwrap-scalar preference symbolic: whatever the preference, a sequence or mapping — empty ones included — comes
+// out as its JSON value; only a scalar may be written bare, and then as its own text.
+func VerifC06JSONEncoder() {
+	prefs := ConfiguredJSONPreferences.Copy()
+	prefs.UnwrapScalar = verifBool("unwrapScalar")
+	prefs.ColorsEnabled = false
+	shape := verifChoice("shape", 6)
+	s := verifStrN("s", 1, "az")
+	var n *yaml.Node
+	var want string
+	bare := ""
+	switch shape {
+	case 0:
+		n, want, bare = vStr(s), "S("+s+")", s
+	case 1:
+		n, want = vSeq(), "[]"
+	case 2:
+		n, want = vMap(), "{}"
+	case 3:
+		n, want = vSeq(vStr(s)), "[S("+s+")]"
+	case 4:
+		n, want = vMap(vStr("k"), vSeq()), "{S(k):[]}"
+	default:
+		n, want, bare = vS("!!null", "null"), "null", "null"
+	}
+	var sb strings.Builder
+	err := NewJSONEncoder(prefs).Encode(c17Writer{&sb}, vDoc(n))
+	verifAssert(err == nil, "C06/json-encoder-error")
+	if err != nil {
+		return
+	}
+	out := sb.String()
+	verifObserve("out", out)
+	label := []string{"string", "empty-seq", "empty-map", "seq", "map-of-empty-seq", "null"}[shape]
+	if bare != "" && verifConcreteBool(prefs.UnwrapScalar) {
+		verifAssert(verifEqStr(out, bare+"\n"), "C06/unwrapped-scalar-is-not-its-text "+label)
+	} else {
+		verifAssert(verifEqStr(out, want), "C06/json-encoder-output-is-not-the-value "+label)
+	}
+	verifCover("C06/encoder/end")
 }
